@@ -98,6 +98,59 @@ def streaming_rerun_case(args):
         sc.close()
 
 
+def component_case(args):
+    """workflows with the bundled components that keep files or temp dirs of their own (FileSplitter, Concatenator, the
+    combinator): Run returns, and nothing temporary is left when it does"""
+    seed, i = args
+    rng = random.Random(seed * 7933 + i)
+    from tools.vlib import hx
+    sp = t3.Spec(maxtasks=rng.randint(1, 3), bufsize=rng.choice([1, 2, 128]))
+    kind = i % 3
+    if kind == 0:
+        n = rng.randint(1, 3)
+        nlines = rng.choice([0, 1, n, 2 * n, 2 * n + 1, 3 * n])       # exact multiples of the line limit included
+        path = rng.choice(["big.txt", "dir/big.txt"])
+        sp.files[path] = "".join("line %d\n" % j for j in range(nlines))
+        s = sp.src("src", [path])
+        c = sp.raw("COMP split %s %d %d %s" % (hx("splitter"), n, s, hx("out")))
+        sp.proc(t3.Proc("after", kind="cat", ins=[("a", [(c, "split_file")])], outs=[("o", "{i:a}.after")]))
+    elif kind == 1:
+        L = rng.randint(0, 4)
+        paths = ["c%d.txt" % j for j in range(L)]
+        for p in paths:
+            sp.files[p] = p + "\n"
+        s = sp.src("src", paths)
+        a = sp.proc(t3.Proc("pre", kind="cattok", ins=[("a", [(s, "out")])], outs=[("o", "{i:a}.pre")]))
+        sp.raw("COMP concat %s %s %d %s %s" % (hx("cc"), hx("all.txt"), a, hx("o"), hx("")))
+    else:
+        srcs = []
+        for k in range(2):
+            L = rng.randint(0, 3)
+            paths = ["k%d_%d.txt" % (k, j) for j in range(L)]
+            for p in paths:
+                sp.files[p] = p + "\n"
+            srcs.append(sp.src("src%d" % k, paths))
+        sp.raw("COMP fcomb %s 2 %s %d %s %s %d %s" % (hx("comb"), hx("k0"), srcs[0], hx("out"), hx("k1"), srcs[1], hx("out")))
+    sc = t3.Scratch()
+    try:
+        sc.plant(sp.files)
+        impl = t3.run_impl(sc, sp, timeout=60)
+        problems = []
+        if impl["timed_out"] or "all goroutines are asleep" in impl["stderr"]:
+            problems.append(("deadlock-or-hang", "a workflow with a bundled component does not terminate"))
+        elif impl["rc"] != 0 or not impl["returned"]:
+            problems.append(("unexpected-failure", "exit %s: %s" % (impl["rc"], impl["stderr"][-200:])))
+        else:
+            lo = [p for p, k in impl["snap_at_return"].items() if p.split("/")[-1].startswith("_scipipe_tmp") or k == "p"]
+            lo += t3.leftovers(impl["fs"])
+            if lo:
+                problems.append(("leftover-at-return", "temp dir or FIFO present when Run returns: %s" % sorted(set(lo))[:3]))
+        return {"spec": sp.text(), "bufsize": sp.bufsize, "problems": problems, "ntasks": 1, "nskip": 0, "rc": impl["rc"], "stderr": impl["stderr"][-300:],
+                "yield": None, "wall": impl["wall"]}
+    finally:
+        sc.close()
+
+
 def case(args):
     seed, i = args
     rng = random.Random(seed * 7919 + i)
@@ -118,10 +171,11 @@ def run(rep, tier, seed):
     n = 96 if tier == "quick" else 1500
     results = t3.run_many(case, [(seed, i) for i in range(n)])
     results += t3.run_many(streaming_rerun_case, [(seed, i) for i in range(n // 8)])
+    results += t3.run_many(component_case, [(seed, i) for i in range(n // 4)])
     t3.report_t3(rep, MODULE, proved, results, "T3 termination / at-return snapshot")
     rep.cov["evaluations"] = len(results)
     rep.cov["distinct_nontrivial"] = len({r["spec"] for r in results if r["ntasks"] >= 1})
-    rep.cov["rule"] = "workflow shapes (independent leaves with a slow one, a process without out-ports beside a slow leaf, a single port-less process, chains with more tasks than buffer slots, capacity-1 diamonds, out-port-less leaf plus parameter-only process) and random DAGs, SCIPIPE_BUFSIZE in {1,2,3}; streamed producer/consumer pairs run once and then twice more in place; a run must terminate (90 s bound), exit 0, and the snapshot the program takes right after Run returns must contain every predicted output and no temp dir / FIFO; every started command has ended; non-trivial = at least one task"
+    rep.cov["rule"] = "workflow shapes (independent leaves with a slow one, a process without out-ports beside a slow leaf, a single port-less process, chains with more tasks than buffer slots, capacity-1 diamonds, out-port-less leaf plus parameter-only process) and random DAGs, SCIPIPE_BUFSIZE in {1,2,3}; streamed producer/consumer pairs run once and then twice more in place; workflows with FileSplitter (line counts that are exact multiples of the limit included), Concatenator and FileCombinator; a run must terminate (90 s bound), exit 0, and the snapshot the program takes right after Run returns must contain every predicted output and no temp dir / FIFO; every started command has ended; non-trivial = at least one task"
     rep.cov["samples"] = [results[0]["spec"], results[2]["spec"]]
     rep.notes["input_distribution"] = {"runs": len(results), "tasks_executed_total": sum(r["ntasks"] for r in results), "max_wall_s": round(max(r["wall"] for r in results), 2)}
     rep.assump += ["a started command eventually exits (H-term)", "SCIPIPE_BUFSIZE >= 1", "theorems: merge-free balanced graphs; other shapes by correspondence"]
